@@ -74,6 +74,11 @@ Definition is_obj (v : pjson) : bool := match v with PObj _ => true | _ => false
 Definition in_domain (ev : pjson) (a : aux) : bool :=
   is_obj ev && parseable ev && is_nil (a_nofit a).
 
+(** Third component of the answer: the known-finding classes (as named in known_findings.json)
+    the event lies in, decided by the very predicate the theorems carry. *)
+Definition classes_of (ev : pjson) : sx :=
+  SL (if mentions_unrepresentable ev then [SS s!"C12-mentions-unrepresentable"] else []).
+
 Definition run (x : sx) : sx :=
   match x with
   | SL [SL [SN op; rs; ev; c; a]; impl] =>
@@ -85,11 +90,13 @@ Definition run (x : sx) : sx :=
             if (op =? 0)%Z then
               SL [enc sx_match (get_match lo (fits_of a) (valid_of a) rs ev c);
                   sx_bool (negb dom ||
-                           sx_eqb impl (sx_outcome sx_match (Ok (spec_get_match lo (valid_of a) rs ev c))))]
+                           sx_eqb impl (sx_outcome sx_match (Ok (spec_get_match lo (valid_of a) rs ev c))));
+                  classes_of ev]
             else
               SL [enc sx_N (get_actions lo (fits_of a) (valid_of a) rs ev c);
                   sx_bool (negb dom ||
-                           sx_eqb impl (sx_outcome sx_N (Ok (spec_get_actions lo (valid_of a) rs ev c))))]
+                           sx_eqb impl (sx_outcome sx_N (Ok (spec_get_actions lo (valid_of a) rs ev c))));
+                  classes_of ev]
         | _, _, _, _ => sx_bad
         end
       else if (op =? 4)%Z then
@@ -100,7 +107,8 @@ Definition run (x : sx) : sx :=
             SL [enc sx_bool (cond_applies lo (fits_of a) (valid_of a) cd (from_raw ev) c);
                 sx_bool (negb dom ||
                          sx_eqb impl (sx_outcome sx_bool
-                           (Ok (negb (Spec.own_event ev c) && spec_cond lo (valid_of a) cd ev c))))]
+                           (Ok (negb (Spec.own_event ev c) && spec_cond lo (valid_of a) cd ev c))));
+                classes_of ev]
         | _, _, _, _ => sx_bad
         end
       else sx_bad
@@ -124,7 +132,8 @@ Definition run (x : sx) : sx :=
              can observe it, and the specification does not speak of it *)
           let dom := is_obj ev && parseable ev && negb (match ev with PObj [] => true | _ => false end) in
           SL [sx_outcome (fun x => x) (Ok model);
-              sx_bool (negb dom || sx_eqb impl (sx_outcome (fun x => x) (Ok expect)))]
+              sx_bool (negb dom || sx_eqb impl (sx_outcome (fun x => x) (Ok expect)));
+              classes_of ev]
       | _, _ => sx_bad
       end
   | _ => sx_bad
